@@ -13,7 +13,7 @@ From Coq Require Import List NArith ZArith Arith Bool Lia ZifyN ZifyNat ZifyBool
 From RT Require Import Model.Bytes Model.Result Model.Varint Model.KeyCodec Model.Records
   Model.RecCodec Model.Block Model.Crc32 Model.Writer Model.Reader Model.SpecDecoder.
 From RT Require Import Proofs.BytesProofs Proofs.CodecProofs Proofs.BlockInitEq Proofs.BlockProofs
-  Proofs.TableProofs Proofs.SeekProofs.
+  Proofs.WriterGuard Proofs.TableProofs Proofs.SeekProofs.
 Import ListNotations.
 Local Open Scope N_scope.
 
@@ -1220,7 +1220,7 @@ Section KeepW.
 
   Lemma w_add_keepo : forall st r st', rec_typ r <> typ_obj -> w_add deflate st r = Ok st' -> keepo st st'.
   Proof.
-    intros st r st' NT H. unfold w_add in H.
+    intros st r st' NT H. apply w_add_ok_core in H; unfold w_add_core in H.
     destruct (negb (bytes_ltb (w_last_key st) (rec_key r))); [discriminate|].
     set (st0 := set_last_key st (rec_key r)) in *.
     set (st1 := match w_bw st0 with None => set_bw st0 (Some (new_bw st0 (rec_typ r))) | Some _ => st0 end) in *.
@@ -1276,7 +1276,7 @@ Section W3.
   Proof.
     intros T st cs0 sec cur L r st' S HT Hr NO H.
     pose proof (w_add_keepo deflate st r st' ltac:(congruence) H) as K.
-    unfold w_add in H.
+    apply w_add_ok_core in H; unfold w_add_core in H.
     destruct (bytes_ltb (w_last_key st) (rec_key r)); cbn [negb] in H; [|discriminate].
     set (st0 := set_last_key st (rec_key r)) in *.
     assert (S0 : SI deflate c mn mx T st0 cs0 sec cur L) by (eapply SI_frame; [..|exact S]; reflexivity).
